@@ -1,12 +1,20 @@
 package common
 
 import (
+	"encoding/json"
 	"github.com/protolambda/ztyp/codec"
 	"github.com/protolambda/ztyp/tree"
 	. "github.com/protolambda/ztyp/view"
 )
 
 type CommitteeIndices []ValidatorIndex
+
+func (li CommitteeIndices) MarshalJSON() ([]byte, error) {
+	if li == nil {
+		return []byte("[]"), nil // encode as empty list, not null
+	}
+	return json.Marshal([]ValidatorIndex(li))
+}
 
 func (p *CommitteeIndices) Deserialize(spec *Spec, dr *codec.DecodingReader) error {
 	return dr.List(func() codec.Deserializable {
@@ -41,6 +49,13 @@ func (c *Phase0Preset) CommitteeIndices() ListTypeDef {
 }
 
 type SlotCommitteeIndices []ValidatorIndex
+
+func (li SlotCommitteeIndices) MarshalJSON() ([]byte, error) {
+	if li == nil {
+		return []byte("[]"), nil // encode as empty list, not null
+	}
+	return json.Marshal([]ValidatorIndex(li))
+}
 
 func (p *SlotCommitteeIndices) Deserialize(spec *Spec, dr *codec.DecodingReader) error {
 	return dr.List(func() codec.Deserializable {
